@@ -285,15 +285,21 @@ def same(d1, d2):
 # running
 
 
+from .shared import LAST_EXCEPTION
+
+
 def run_real(fn, args):
+    LAST_EXCEPTION[0] = None
     try:
         v = fn(*args)
         return ('return', v)
     except RecursionError:
         raise
     except Exception as e:          # every escape is an outcome
+        LAST_EXCEPTION[0] = e
         return ('raise', type(e), e)
     except SystemExit as e:         # sys.exit() of command-line code
+        LAST_EXCEPTION[0] = e
         return ('raise', type(e), e)
 
 
